@@ -76,7 +76,7 @@ classified from the implementation's two maps (`maps-differ:…` when they diffe
 def hx (s : String) : String := if s.isEmpty then "-" else Wire.encStr s
 
 mutual
-partial def valueText : Value → String
+partial def valueText : Merge.LV → String
   | .var v => "$" ++ hx v
   | .int i => "i" ++ toString i
   | .bool b => if b then "b1" else "b0"
@@ -84,8 +84,8 @@ partial def valueText : Value → String
   | .float s => "f." ++ hx s
   | .null => "n"
   | .enum e => "e." ++ hx e
-  | .list vs => "l[" ++ ",".intercalate (vs.map valueText) ++ "]"
-  | .object fs => "o{" ++ ",".intercalate (fs.map fun kv => hx kv.1 ++ "=" ++ valueText kv.2) ++ "}"
+  | .list _ vs => "l[" ++ ",".intercalate (vs.map valueText) ++ "]"
+  | .object _ fs => "o{" ++ ",".intercalate (fs.map fun kv => hx kv.1 ++ "=" ++ valueText kv.2) ++ "}"
 end
 
 def argsText (as : List Merge.LArg) : String :=
